@@ -5,7 +5,7 @@
 #   4. the demo PASSES without it.  Writes /tmp/seeded_verify/<name>.result ; removes nothing but its own patch state.
 set -u
 SRC="$1"; NAME="$2"
-WT=/tmp/sv_wt
+WT=${SV_WT:-/tmp/sv_wt}
 OUT=/tmp/seeded_verify; mkdir -p $OUT
 R=$OUT/$NAME.result; : > $R
 if [ ! -d $WT ]; then git -C /repo worktree add --detach $WT HEAD -q || exit 2; fi
